@@ -12,5 +12,6 @@ Extraction "../build/ocaml/C13/model.ml"
   nf_step nf_init nf_final nf_ok nf_send nf_badunlock nf_pcA nf_pcB nf_gone_witness nf_new_witness nf_finishing
   rc_step rc_init rc_final rc_reclaimed rc_bad rc_joined rc_detached rc_leak_witness rc_early_witness rc_finishing
   ls_step ls_init ls_final ls_badjoin ls_late ls_witness
+  hs_step hs_init hs_final hs_state hs_witness hs_finishing
   iw_step iw_init iw_final iw_uaf iw_fr0 iw_fr1
   P_send P_cursor P_upd P_list P_ref P_out.
